@@ -1311,8 +1311,9 @@ _ID = lambda *names: {n: n for n in names}       # noqa: E731
 # coefficient tables are float arrays whatever literals they were written
 # with: an integer table (np.atleast_2d([[0, 0], [0, 0]])) truncates every
 # coefficient later written into it by a variable or perturbation
+# (np.asarray hands back the caller's own array when it already is a float
+# array: not a private copy)
 _FLOAT_TABLE = ('np.atleast_2d(np.array(coefficients, dtype=float))',
-                'np.atleast_2d(np.asarray(coefficients, dtype=float))',
                 'np.atleast_2d(coefficients).astype(float)',
                 'np.array(coefficients, dtype=float, ndmin=2)')
 INIT_STORES = {
